@@ -49,6 +49,11 @@ def cov_function(ctx, obs):
         unparse(lo.iter) == 'range(length)' and unparse(li.iter) in ('range(%s, length)' % i, 'range(length)')
     ctx.check(rule, key + '-loops', okl, 'upper triangle incl. diagonal is filled for all i', 'fill loops are %s / %s' % (unparse(lo.iter) if isinstance(lo, ast.For) else None, unparse(li.iter) if isinstance(li, ast.For) else None), obs.loc(s))
     upper_only = isinstance(li, ast.For) and unparse(li.iter) != 'range(length)'
+    # the element loop is the only source of the matrix: it is not skipped in favour of another estimate under some condition
+    skip = [unparse(t_) for t_, pol in guards_of(obs, s, stop=f)]
+    ctx.check(rule, key + '-unconditional', not skip, 'every pair goes through _covariance_element',
+              'the element loop runs only under %s: for the other inputs the matrix comes from `%s`, which is not the pairwise estimate on the common configurations' % (
+                  skip, [unparse(x.value)[:50] for x in sts if isinstance(x, ast.Assign) and isinstance(x.targets[0], ast.Name) and x.targets[0].id == unparse(t.value) and not (isinstance(x.value, ast.Call) and call_name(x.value) == 'zeros')][:1]), obs.loc(s))
     # mirror
     cdefs = [x for x in sts if isinstance(x, ast.Assign) and isinstance(x.targets[0], ast.Name) and x.targets[0].id == covname]
     U = S(covname)
@@ -239,6 +244,13 @@ def helpers(ctx, obs):
         ok = unparse(st[0].args[0]) == unparse(ch[0].targets[0]) and lw is not None and isinstance(lw, ast.Constant) and lw.value is True and \
             unparse(ch[0].value.args[0]) == f.args.args[0].arg and unparse(st[0].args[1]) == f.args.args[1].arg
         ctx.check(rule, key, ok, 'L = cholesky(corr) (lower factor) ; solve_triangular(L, inverrdiag, lower=True)', 'call is %s with %s' % (unparse(st[0]), unparse(ch[0])), obs.loc(st[0]))
+
+    # the matrix that is decomposed is the caller's: a 'renormalised' copy (unit diagonal forced) is another matrix whenever the diagonal is not 1
+    # (eigenvalue smoothing), and chol_inv^T chol_inv is then not the inverse covariance any more
+    pn = [a.arg for a in f.args.args]
+    reb = [w for w in walk(f) if isinstance(w, ast.Name) and w.id in pn and isinstance(w.ctx, ast.Store)]
+    ctx.check(rule, 'obs.py:invert_corr_cov_cholesky#operands-as-given', not reb, 'corr and inverrdiag are used as passed in',
+              'the parameter `%s` is reassigned before the decomposition (`%s`)' % (reb[0].id if reb else '', unparse(obs.parents.get(reb[0]))[:80] if reb else ''), obs.loc(reb[0]) if reb else None)
 
     # _smooth_eigenvalues
     f = obs.func('_smooth_eigenvalues')
